@@ -33,12 +33,12 @@ PLAN = {
             'thorough': [('nest', 12000), ('await_pos', None), ('fwd3', None), ('fwd', 3000), ('firstuse', None), ('life', None), ('hist_rand', 2000)]},
     'C03': {'quick': [('nest', 500), ('await_pos', 192), ('recursion', None), ('errors', 120), ('fwd3', 150), ('hist', 150), ('par_timeout', 72), ('timeout_stray', None), ('timeout_rand', 100)],
             'thorough': [('nest', 12000), ('await_pos', None), ('recursion', None), ('errors', None), ('fwd3', None), ('fwd', 2000), ('hist', None), ('hist_rand', 3000), ('timeout_rand', 2000), ('par_timeout', None), ('timeout_par_rand', 2000), ('timeout_stray', None)]},
-    'C04': {'quick': [('await_pos', None), ('nest', 500), ('firstuse', None), ('fwd', 150), ('deep_timeout', None)],
-            'thorough': [('await_pos', None), ('nest', 15000), ('firstuse', None), ('fwd', 3000), ('hist_rand', 2000), ('timeout_rand', 2000)]},
-    'C05': {'quick': [('await_pos', None), ('nest', 500), ('firstuse', None), ('timeout', None), ('deep_timeout', None), ('hist_rand', 150)],
-            'thorough': [('await_pos', None), ('nest', 15000), ('firstuse', None), ('fwd', 3000), ('life', None), ('hist_rand', 2000), ('timeout', None), ('timeout_rand', 3000)]},
-    'C06': {'quick': [('firstuse', None), ('nest', 500), ('idle_par', None), ('errors_par', None), ('await_pos', 192), ('fwd3', 150), ('life', 150)],
-            'thorough': [('firstuse', None), ('nest', 15000), ('idle_par', None), ('errors_par', None), ('await_pos', None), ('fwd3', None), ('fwd', 3000), ('life', None), ('timeout_rand', 2000)]},
+    'C04': {'quick': [('await_pos', None), ('nest', 500), ('firstuse', None), ('fwd', 150), ('deep_timeout', None), ('await_after_stop', None)],
+            'thorough': [('await_pos', None), ('nest', 15000), ('firstuse', None), ('fwd', 3000), ('hist_rand', 2000), ('timeout_rand', 2000), ('await_after_stop', None)]},
+    'C05': {'quick': [('await_pos', None), ('nest', 500), ('firstuse', None), ('timeout', None), ('deep_timeout', None), ('hist_rand', 150), ('lock_wait', None)],
+            'thorough': [('await_pos', None), ('nest', 15000), ('firstuse', None), ('fwd', 3000), ('life', None), ('hist_rand', 2000), ('timeout', None), ('timeout_rand', 3000), ('lock_wait', None)]},
+    'C06': {'quick': [('firstuse', None), ('nest', 500), ('idle_par', None), ('errors_par', None), ('await_pos', 192), ('fwd3', 150), ('life', 150), ('lock_wait', None)],
+            'thorough': [('firstuse', None), ('nest', 15000), ('idle_par', None), ('errors_par', None), ('await_pos', None), ('fwd3', None), ('fwd', 3000), ('life', None), ('timeout_rand', 2000), ('lock_wait', None)]},
     'C07': {'quick': [('fwd3', None), ('fwd_deep', None), ('fwd', 300)],
             'thorough': [('fwd3', None), ('fwd_deep', None), ('fwd', 12000)]},
     'C08': {'quick': [('fwd3', 768), ('fwd', 300), ('nest', 300), ('errors', 100), ('timeout', 300), ('timeout_rand', 200)],
@@ -71,7 +71,10 @@ OWN['C14'] += [('C03.', ('capacity', 'retry_dispatch')), ('C01.missing', ('capac
 _TMO = ('timeout', 'timeout_rand', 'deep_timeout', 'par_timeout', 'timeout_par_rand', 'timeout_stray')
 OWN['C10'] += [('C01.missing', _TMO), ('C15.hang', _TMO), ('C08.result_changed', _TMO), ('C03.', ('par_timeout', 'timeout_par_rand', 'timeout_stray'))]
 OWN['C17'] += [('C01.', ('wal',)), ('C03.', ('wal',)), ('X.wal', ('wal',))]
-OWN['C07'] += [('C01.missing', ('fwd_deep',)), ('Q.no_quiescence', ('fwd', 'fwd3'))]
+_FWD = ('fwd', 'fwd3', 'fwd_deep')
+# "forwarding terminates ... the results of all buses' handlers accumulate on it": in the forwarding families a forwarded event that never
+# completes, an awaiter that hangs on it or a bus that never goes idle again is a failure of forwarding
+OWN['C07'] += [('C01.missing', ('fwd_deep',)), ('Q.no_quiescence', ('fwd', 'fwd3')), ('C15.hang', _FWD), ('C03.hang', _FWD), ('C03.not_completed', _FWD)]
 GENERIC = ('Q.', 'X.')
 
 # the monitor's counters that show a property's clauses were actually exercised (vacuity guard)
